@@ -3,8 +3,8 @@
 except through Digest::{cmp,partial_cmp,eq,hash}. Prints JSON: {"new_uses":[...], "allowed":n}.
 A new use does not fail the check (it may be a behaviour-preserving refactor); it is recorded in
 the evidence as 'order dimension possibly under-explored at <file:line>'."""
-import json, re, sys, pathlib
-ROOT = pathlib.Path('/repo/src')
+import json, os, re, sys, pathlib
+ROOT = pathlib.Path(os.environ.get('VERIF_REPO', '/repo')) / 'src'
 PAT = re.compile(r'\.data\(\)|digest\(\)\.as_ref\(\)|digest_ref\(\)\.as_ref\(\)|\.hex\(\)|short_description|\[u8; ?32\]|to_vec\(\)|as_bytes\(\)|<\s*\[u8\]|\.0\b.*digest')
 # (file, stripped line) pairs present on the pinned tree, each read and classified:
 ALLOW = {
